@@ -365,8 +365,8 @@ func checkC05(c *h.Check) {
 		}
 	}
 	// the ambiguous injector sits in the first of two injector files (or the last)
-	for swap := 0; swap < 2; swap++ {
-		prog := twoFilesProgram(2, swap == 1)
+	for swap := 0; swap < 4; swap++ {
+		prog := twoFilesProgramN(2, swap%2 == 1, swap/2*2) // swap>=2: the other file holds three well-formed injectors
 		cs := caseFromProgram(fmt.Sprintf("C05/two-injector-files/last=%d", swap), prog, false, nil)
 		cs.Judge = judgeProgramF(prog, false, nil, map[string]bool{"conflict": true})
 		if c.NoteProgram(cs.Files) {
